@@ -60,7 +60,7 @@
     }
 
 
-//# ob name=find_start_marker_leftmost fn=compiler::lexer::find_start_marker_memchr kind=bounded bound="all UTF-8 strings of length <= 4 bytes" stmt="find_start_marker_memchr returns the LEFTMOST occurrence of {{ / {% / {# with the right marker kind, the whitespace marker read from the byte after it, and the skip length 2 (+1 with a marker); None iff there is no start marker: everything before the returned offset is plain text"
+//# ob name=find_start_marker_leftmost tier=thorough fn=compiler::lexer::find_start_marker_memchr kind=bounded bound="all UTF-8 strings of length <= 4 bytes" stmt="find_start_marker_memchr returns the LEFTMOST occurrence of {{ / {% / {# with the right marker kind, the whitespace marker read from the byte after it, and the skip length 2 (+1 with a marker); None iff there is no start marker: everything before the returned offset is plain text"
     #[kani::proof]
     #[kani::unwind(7)]
     fn find_start_marker_leftmost() {
@@ -87,7 +87,7 @@
         kani::cover!(exp == Some(1), "marker after one byte of text");
         kani::cover!(exp.is_none() && n == 4, "no marker");
     }
-//# ob name=should_lstrip_block_contract fn=compiler::lexer::should_lstrip_block kind=bounded bound="all UTF-8 prefixes of length <= 4 bytes, flag in {false,true}, marker in {Variable, Block, Comment}" stmt="should_lstrip_block holds exactly when lstrip_blocks is on, the tag is a block or comment tag, and only whitespace lies between the tag and the preceding line break (or the start of the source)"
+//# ob name=should_lstrip_block_contract tier=thorough fn=compiler::lexer::should_lstrip_block kind=bounded bound="all UTF-8 prefixes of length <= 4 bytes, flag in {false,true}, marker in {Variable, Block, Comment}" stmt="should_lstrip_block holds exactly when lstrip_blocks is on, the tag is a block or comment tag, and only whitespace lies between the tag and the preceding line break (or the start of the source)"
     #[kani::proof]
     #[kani::unwind(7)]
     fn should_lstrip_block_contract() {
